@@ -170,12 +170,14 @@ func genRef(r *Rand, p *Plan, tier string, focus string) {
 	switch focus {
 	case "C13":
 		o.Filters, o.Overlap, o.V6 = true, true, true
+		o.OddScopes = r.Chance(30)
 	case "C07":
 		o.OddAuth = r.Chance(30)
 		o.Keychain = true
 	case "C10", "C18":
 		o.Keychain = true
 		o.OddAuth = r.Chance(15)
+		o.OddScopes = focus == "C18" && r.Chance(50)
 	}
 	d := GenDoc(r, o)
 	d.Normalize()
@@ -429,7 +431,7 @@ func genC14(r *Rand, p *Plan, tier string) {
 	p.Family = "ref-C14"
 	p.Scen.Server = "ref"
 	p.Scen.Format = PickOf(r, "yaml", "json")
-	d := GenDoc(r, DocOpts{Keychain: true, OddAuth: true, InvalidRegex: true, Filters: r.Chance(20)})
+	d := GenDoc(r, DocOpts{Keychain: true, OddAuth: true, InvalidRegex: true, Filters: r.Chance(20), OddScopes: r.Chance(30)})
 	d.Normalize()
 	g := &refGen{r: r, d: d, sid: uint32(r.Intn(1 << 20))}
 	g.names, g.pws = DocUsers(d)
